@@ -28,12 +28,16 @@ impl SecondaryStorage {
             if fs::metadata(&options.path).await.is_err() {
                 info!("create db directory at {:?}", options.path);
                 fs::create_dir(&options.path).await?;
+                #[cfg(feature = "verif")]
+                crate::verif::persist("db.mkdir.post", &options.path);
             }
 
             // create DV folder if not exist
             let dv_directory = options.path.join("dv");
             if fs::metadata(&dv_directory).await.is_err() {
                 fs::create_dir(&dv_directory).await?;
+                #[cfg(feature = "verif")]
+                crate::verif::persist("dv.mkdir.post", &dv_directory);
             }
         }
 
